@@ -42,7 +42,10 @@ func genText(r *gen.RNG, n int) (text []rune, flavour string) {
 		weight int
 	}
 	var mix []w
-	fl := r.Intn(8)
+	fl := r.Intn(9)
+	if fl == 8 {
+		return genBracketText(r, n, r.Intn(1<<20)), "bracket-pairs"
+	}
 	oth := otherScript(r)
 	switch fl {
 	case 0: // bidi with brackets
